@@ -229,8 +229,22 @@ static void gen_c20(uint64_t seed, uint64_t run, const std::string& tier, Plan& 
   size_t n = (size_t)r.range(1, tier == "thorough" ? 6 : 4);
   for (size_t i = 0; i < n; i++) {
     JVal t = model::gen_value(r, go);
+    if (r.chance(1, 6)) { t = model::gen_mixed_key_object(r, go); if (r.chance(1, 3) && !t.o.empty()) t.o[r.below(t.o.size())].second = model::gen_mixed_key_object(r, go); }   // UpdateLazy indexes every target object by key
     if (t.k != JVal::Obj && r.chance(3, 4)) { JVal w = JVal::obj(); size_t m = r.below(5); for (size_t j = 0; j < m; j++) { std::string k = model::gen_key(r, go); if (w.find(k) < 0) w.o.emplace_back(k, model::gen_value(r, go, 1)); } t = w; }
     JVal s = respell_related(r, t, go, 1);
+    if (r.chance(1, 2500)) {   // both sides are objects along one path for hundreds of levels (recursion depth of the merge), target-only members on the way
+      size_t d = r.chance(1, 2) ? (size_t)r.range(1000, 1700) : (size_t)r.range(200, 1100);
+      size_t every = (size_t)r.range(40, 400);
+      t = JVal::obj(); t.o.emplace_back("x", JVal::uint(1)); t.o.emplace_back("keep", JVal::uint(2));
+      s = JVal::obj(); s.o.emplace_back("x", JVal::uint(3)); s.o.emplace_back("new", JVal::uint(4));
+      for (size_t lv = 0; lv < d; lv++) {
+        JVal nt = JVal::obj(), ns = JVal::obj();
+        if (lv % every == 1) nt.o.emplace_back("t" + std::to_string(lv), JVal::uint(lv));
+        nt.o.emplace_back("a", std::move(t)); ns.o.emplace_back("a", std::move(s));
+        if (lv % every == 2) ns.o.emplace_back("s" + std::to_string(lv), JVal::uint(lv));
+        t = std::move(nt); s = std::move(ns);
+      }
+    }
     std::string tt, st;
     model::WriteOpts wo; wo.ws_rng = &r; wo.ws_max = r.chance(1, 4) ? 70 : 3; wo.escape_more = r.chance(1, 2);
     model::write(t, tt, wo);
@@ -278,7 +292,25 @@ static void exec_c15(const Plan& p, Outcome& out) {
             ob += std::to_string(d.FindMember(kb.data, sv.size()) - d.MemberBegin()) + "," + std::to_string(d.FindMember(StringView(kb.data, sv.size())) - d.MemberBegin()) + ";";
             kb.free();
           }
+          // the same lookups through the optional lookup map (its comparator is InlinedMemcmp in static builds, std::less in the dispatch build)
+          if (d.IsObject() && d.Size() <= 64) {
+            d.CreateMap(d.GetAllocator());
+            ob += "M";
+            for (auto it = d.MemberBegin(); it != d.MemberEnd(); ++it) { ob += std::to_string(d.FindMember(it->name.GetStringView()) - d.MemberBegin()); ob += ','; }
+          }
         }
+      } else if (op.kind == "Schema") {
+        // ParseSchema is the one entry point that drives both whitespace skippers on one scanner
+        CBuf ta(op.S(0), simmem::PL_END), tb(op.S(1), simmem::PL_END);
+        DSim d;
+        d.Parse(ta.data, op.S(0).size());
+        ta.release();
+        if (d.HasParseError()) ob = "base-rej";
+        else {
+          d.ParseSchema(tb.data, op.S(1).size());
+          ob = "S" + std::to_string((int)d.GetParseError()) + "|" + d.Dump();
+        }
+        tb.release();
       } else if (op.kind == "OnDemand") {
         const std::string& text = op.S(0);
         model::ParseOut ref = model::parse(text);
@@ -338,6 +370,13 @@ static void gen_c15(uint64_t seed, uint64_t run, const std::string& tier, Plan& 
       op.kind = "Parse";
       std::string t = pad + gen_text(r, go, (int)r.range(1, 3), r.chance(1, 3) ? 70 : 3);
       if (r.chance(1, 3)) t = mutate_text(r, t);
+      if (r.chance(1, 8)) { model::GenOpts g3 = go; g3.dup_keys = false; t = pad + model::write(model::gen_mixed_key_object(r, g3)); }   // keys a lookup map has to order
+      if (r.chance(1, 150)) {   // containers beyond 2048 members / 4096 elements (bulk copies of the node stack)
+        bool obj = r.chance(1, 2); size_t cnt = obj ? (size_t)r.range(2040, 2700) : (size_t)r.range(4090, 5200);
+        t = pad + (obj ? "{" : "[");
+        for (size_t k = 0; k < cnt; k++) { if (k) t += ","; if (obj) { t += "\"k"; t += std::to_string(k); t += "\":"; } t += std::to_string(k % 10); }
+        t += obj ? "}" : "]";
+      }
       if (r.chance(1, 6)) {  // numbers of every digit count
         t = pad + "[";
         size_t cnt = (size_t)r.range(1, 6);
@@ -361,8 +400,16 @@ static void gen_c15(uint64_t seed, uint64_t run, const std::string& tier, Plan& 
       op.kind = "UpdateLazy";
       model::GenOpts g2 = go; g2.dup_keys = false;
       JVal a; std::string ta = gen_text(r, g2, 2, 3, &a);
+      if (r.chance(1, 3)) { a = model::gen_mixed_key_object(r, g2); ta = model::write(a); }
       JVal b = respell_related(r, a, g2, 1);
       std::string tb; model::WriteOpts wo; wo.ws_rng = &r; wo.ws_max = 3; wo.escape_more = true; model::write(b, tb, wo);
+      op.s.push_back(ta); op.s.push_back(tb);
+    } else if (m < 9 && r.chance(1, 2)) {
+      op.kind = "Schema";
+      model::GenOpts g2 = go; g2.dup_keys = false;
+      JVal a; std::string ta = gen_text(r, g2, 2, 3, &a);
+      JVal b = respell_related(r, a, g2, 1);
+      std::string tb; model::WriteOpts wo; wo.ws_rng = &r; wo.ws_max = r.chance(1, 2) ? 70 : 4; wo.escape_more = r.chance(1, 2); model::write(b, tb, wo);
       op.s.push_back(ta); op.s.push_back(tb);
     } else {
       op.kind = "BuildDump";
@@ -378,6 +425,6 @@ static const Profile kC11 = {"C11", gen_c11, exec_c11,
 static const Profile kC20 = {"C20", gen_c20, exec_c20,
   "a run = 1..6 pairs of valid duplicate-free texts (source derived from target: shared keys, new keys, same keys spelled with different escapes) given to UpdateLazy under 2 memory environments differing in fresh-memory fill, placement and realloc policy; non-trivial/distinct as for C12"};
 static const Profile kC15 = {"C15", gen_c15, exec_c15,
-  "a run = 2..10 SIMD-heavy ops (Parse of texts shifted by 0..65 bytes incl. numbers of every digit count, GetOnDemand, UpdateLazy, build+Serialize); the observation digest of every run is compared across build flavours by the driver; distinct = hash(plan shape, digest)"};
+  "a run = 2..10 SIMD-heavy ops (Parse of texts shifted by 0..65 bytes incl. numbers of every digit count, mixed-script keys looked up with and without the lookup map, containers of 2048+ members, GetOnDemand, UpdateLazy, ParseSchema, build+Serialize); the observation digest of every run is compared across build flavours by the driver; distinct = hash(plan shape, digest)"};
 static ProfileReg r11(&kC11), r20(&kC20), r15(&kC15);
 }  // namespace
